@@ -395,12 +395,16 @@ def run(ctx, only_extra=False):
         "serialized messages are handled concurrently by two or three real SubroutineHandlers; a seeded scheduler picks which host proceeds / when the "
         "clock advances; executioner.py's `random` (basis choice) is replaced by a seeded generator",
         "the sequence-number / FIFO model is compared through a linearisation of the observed creations and deliveries (the theorem says the result does "
-        "not depend on the interleaving)"]
+        "not depend on the interleaving)",
+        "harness/qasm_eprfail.py (measure-directly pairs message by message): replicates _sample_basis_choice's use of random.choices to find the generator "
+        "seed that yields the wanted bases; reads the records from ReturnArray messages of 10 defined values whose type field is OK_M"]
     ctx.rule = ("random experiments: 2-3 nodes, 1-4 requests (create-and-keep / measure-directly, 1-3 pairs, random basis sets NONE/XZ/XYZ per side with random 8-bit basis-choice weights (written into the request array; the SDK leaves them 0), 1-2 sockets "
                 "per node pair, both directions on one socket pair), random scheduler seed, 25% over real PB; per request the pairing predicate on both "
                 "ReturnArray contents, numpy check that the two delivered qubits are an isolated |Phi+> register, outcome possibility for measure-directly, "
                 "sequence numbers per socket pair, halves survive the creator's stop, everything gone after all stops; configuration order of the nodes differs from the "
                 "alphabetical order in half of the experiments; hand-written subroutines with several in flight per host: delivery into an occupied virtual address; "
+                "measure-directly requests of one pair with forced bases (all nine pairs) and scripted coins, alone or with a create-and-keep request in the same deque: "
+                "native calls, node dumps, host bookkeeping, deques and both ReturnArray records compared with the N-host model message by message (Qasm/EprCases.v); "
                 "distinct = distinct (request list, scheduler seed, coins)")
     common.check_properties_file(ctx)
     logging.disable(logging.CRITICAL)
@@ -448,7 +452,20 @@ def run(ctx, only_extra=False):
                 ctx.case(("occupied-address", variant, tuple(order), pb), nontrivial=True)
                 if ps:
                     occ.append((variant, order, pb, ps))
+    # measure-directly pairs, message by message against the N-host model (harness/qasm_eprfail.py, Qasm/EprCases.v): one request of one
+    # pair with the creator's two basis choices forced through the seeded generator, all nine pairs of bases
+    import qasm_eprfail as F
+    md_runs = []
+    with c09.quiet():
+        if not hung:
+            for sc in F.fixed_scenarios():
+                if sc["kind"] == "ok" and sc.get("md"):
+                    md_runs.append(F.run(env, sc))
     logging.disable(logging.NOTSET)
+    for r in md_runs:
+        ctx.count("md_pairs_message_by_message")
+        ctx.count("md_pair_bases_" + r["sc"]["md"]["bases"])
+        ctx.case(("md-pair", str(sorted(r["sc"].items()))), nontrivial=True)
     for r in results:
         e = r["exp"]
         ctx.case((str(e["reqs"]), e["sched"], str(e["coins"][:8]), e["pb"]), nontrivial=True)
@@ -518,6 +535,25 @@ def run(ctx, only_extra=False):
             ctx.broken_explained_by_known = True
     if not (seen - {"C08:seq-collision-opposite-directions"}):
         ctx.obligation("oracle: pairing, |Phi+> state, measure-directly outcomes, per-direction sequence numbers, halves survive the creator's stop", True)
+    # ---- measure-directly pairs: model = implementation, message by message -----------------------------------------------------------------
+    md_found = [(r, F.judge(r)) for r in md_runs]
+    md_found = [(r, ps) for r, ps in md_found if ps]
+    ctx.obligation("oracle (measure-directly, one pair, forced bases): every message completes without error and nothing is left on any node (%d scenarios, "
+                   "all nine pairs of bases)" % len(md_runs),
+                   not md_found and (hung or all(ctx.coverage.get("md_pair_bases_" + a + b) for a in "ZXY" for b in "ZXY")),
+                   "%s -- %s" % (md_found[0][1][0]["what"], F.describe(md_found[0][0]["sc"])) if md_found else "")
+    for r, ps in md_found[:1]:
+        if ctx.report("C08:md-" + ps[0]["kind"], "%s -- %s" % (ps[0]["what"], F.describe(r["sc"])), F.replay_obj(r), found_input=True):
+            found = True
+        else:
+            ctx.broken_explained_by_known = True
+    bad_md = F.correspond(ctx, md_runs) if md_runs else []
+    if bad_md and not found and not (seen - {"C08:seq-collision-opposite-directions"}):
+        r, i = bad_md[0]
+        if ctx.report("correspondence:C08-measure-directly", "the model of a measure-directly pair (EprGate.cmd_epr_measure inside TeardownNet.nstep_r: native calls "
+                      "with basis rotations and coins, deques, both ReturnArray records) and the implementation disagree (the oracles are satisfied)",
+                      dict(F.replay_obj(r), first_disagreeing_message=i), found_input=False):
+            found = True
     # (the end-to-end half of C12 runs under ./check C12, see props/c12.py)
     if not agree and not found and not seen:
         ctx.report("correspondence:C08", "keyed sequence/FIFO model and implementation disagree", {"broken": ctx.broken()}, found_input=False)
